@@ -5,22 +5,23 @@ import json, os, re, subprocess, sys
 env = dict(os.environ, CARGO_NET_OFFLINE="true", RUST_BACKTRACE="0")
 for rf in sys.argv[1:]:
     wt = "/tmp/wt/%s" % rf
-    src = os.path.join(wt, "REFACTOR")
+    DIRN = os.environ.get("CONFIRM_DIR", "REFACTOR")
+    src = os.path.join(wt, DIRN)
     for f in sorted(os.listdir(src)):
         if not f.endswith(".patch"):
             continue
         def sh(cmd):
             p = subprocess.run(cmd, shell=True, cwd=wt, env=env, stdout=subprocess.PIPE, stderr=subprocess.STDOUT, text=True)
             return p.returncode, p.stdout
-        sh("git checkout -q -- . && git clean -fdq -e REFACTOR -e target")
-        rc, out = sh("git apply REFACTOR/%s" % f)
+        sh("git checkout -q -- . && git clean -fdq -e REFACTOR -e BENIGN -e target")
+        rc, out = sh("git apply %s/%s" % (DIRN, f))
         if rc != 0:
             print(rf, f, "DOES NOT APPLY", out[-200:]); continue
         rc, out = sh("cargo test --workspace --no-fail-fast --offline 2>&1")
         passed = sum(int(x) for x in re.findall(r"test result: \w+\. (\d+) passed", out))
         failed = sum(int(x) for x in re.findall(r"test result: \w+\. \d+ passed; (\d+) failed", out))
         touched = subprocess.run("git diff --stat | tail -1", shell=True, cwd=wt, stdout=subprocess.PIPE, text=True).stdout.strip()
-        sh("git checkout -q -- . && git clean -fdq -e REFACTOR -e target")
+        sh("git checkout -q -- . && git clean -fdq -e REFACTOR -e BENIGN -e target")
         ok = passed == 101 and failed == 0 and rc == 0
         print("%s %s: %d passed / %d failed (%s) -> %s" % (rf, f, passed, failed, touched, "CONFIRMED" if ok else "REJECTED"))
         if not ok:
